@@ -353,6 +353,17 @@ def r05_4(ck):
         ok = lp is not None and A.is_name(lp.iter, params[2]) and \
             A.unparse(a0) == A.unparse(lp.target) and A.is_name(a1,
                                                                 params[1])
+        if lp is not None:
+            ca = cfg_of(add.node)
+            extra = ca.guards(ca.node(e)) - ca.guards(
+                ca.loops[id(lp)]['body_entry'])
+            ck.require(not extra, 'R05.4', add, e,
+                       'every listed dependency becomes an edge, whether or '
+                       'not the dependency has been added yet',
+                       'the edge is added only under %s: a dependency that '
+                       'is registered later (listed after its dependant) is '
+                       'silently dropped and the two steps run in one layer'
+                       % sorted(extra), e)
         ck.require(ok, 'R05.4', add, e,
                    'edge goes from the dependency to the dependant',
                    'edge direction or endpoints wrong: add_edge(%s, %s)' % (
